@@ -309,6 +309,8 @@ def run_verus(tmp, o, extra_suffix=""):
     r["rules"] = meta["rules"]
     r["lines"] = text.count("\n")
     r["sliced"] = meta["sliced"]
+    r["assumes"] = meta.get("assumes", [])
+    r["types"] = meta.get("types", [])
     t0 = time.time()
     cmd = ["verus", path, "--output-json", "--time", "--multiple-errors", "10", "--rlimit", str(o.get("rlimit", 30))]
     try:
@@ -373,6 +375,9 @@ def scan_assumptions(files):
             continue
         for i, l in enumerate(open(f), 1):
             s = l.strip()
+            if s.startswith("//@ASSUMES"):
+                found.append("%s:%d: %s" % (os.path.relpath(f, VERIF), i, s[:200]))
+                continue
             if s.startswith("//") and "TRUST:" not in s and "PROVED-BY:" not in s:
                 continue
             for p in SCAN_PATTERNS:
@@ -616,6 +621,8 @@ def build_evidence(pid, tier, seed, obs, results, n_ok, violations, known, undec
             e["unit_lines"] = r.get("lines")
             e["extraction_rules_applied"] = r.get("rules")
             e["sliced_from"] = r.get("sliced")
+            e["type_definitions_sliced"] = r.get("types")
+            e["callee_contracts_copied_from_verifying_unit"] = r.get("assumes")
             if "vacuity_pass" in r:
                 e["ensures_false_pass"] = r["vacuity_pass"]
         samples.append(e)
